@@ -473,19 +473,80 @@ Proof.
   apply map_ext. intro; apply odf_text_para.
 Qed.
 
+Lemma od_rows_ftable_gen (cf : xml -> str) (fg : fgrid) :
+  (forall c, cf (odf_r_fcell c) = fcell_text c) ->
+  rows_nonempty fg = true ->
+  filter (fun r => negb (is_nil r))
+    (map (fun row => map cf (findall TABLE_CELL row))
+         (map (fun r => E TABLE_ROW (map odf_r_fcell r)) fg)) = fgrid_text fg.
+Proof.
+  intros Hcf H. rewrite map_map.
+  rewrite (map_ext _ (map fcell_text)).
+  2:{ intro r. rewrite findall_E, filter_map_true by (intro; reflexivity).
+      rewrite map_map. apply map_ext. intro; apply Hcf. }
+  unfold fgrid_text, rows_nonempty in *.
+  induction fg as [|r fg IH]; [reflexivity|]. cbn [map filter forallb] in *.
+  apply andb_true_iff in H as [Hr Hg]. rewrite is_nil_map, Hr, (IH Hg). reflexivity.
+Qed.
+
 Lemma od_rows_ftable (fg : fgrid) :
   rows_nonempty fg = true ->
   filter (fun r => negb (is_nil r))
     (map (fun row => map (odf_cell pint skip) (findall TABLE_CELL row))
          (map (fun r => E TABLE_ROW (map odf_r_fcell r)) fg)) = fgrid_text fg.
+Proof. apply od_rows_ftable_gen. exact od_cell_fcell. Qed.
+
+(* iter_skip: descendants without entering children tagged `sk` *)
+Lemma iter_skip_unfold sk t a x cs l :
+  iter_skip sk (Elem t a x cs l)
+  = flat_map (fun c => if tag_is sk c then [] else c :: iter_skip sk c) cs.
+Proof. reflexivity. Qed.
+
+Lemma od_paras_para p :
+  (if tag_is OFFICE_ANNOTATION (odf_r_para p) then []
+   else filter (tag_is TEXT_P) (odf_r_para p :: iter_skip OFFICE_ANNOTATION (odf_r_para p)))
+  = [odf_r_para p].
 Proof.
-  intro H. rewrite map_map.
-  rewrite (map_ext _ (map fcell_text)).
-  2:{ intro r. rewrite findall_E, filter_map_true by (intro; reflexivity).
-      rewrite map_map. apply map_ext. intro; apply od_cell_fcell. }
-  unfold fgrid_text, rows_nonempty in *.
-  induction fg as [|r fg IH]; [reflexivity|]. cbn [map filter forallb] in *.
-  apply andb_true_iff in H as [Hr Hg]. rewrite is_nil_map, Hr, (IH Hg). reflexivity.
+  destruct p as [|t0 rest]; unfold odf_r_para.
+  - reflexivity.
+  - replace (tag_is OFFICE_ANNOTATION (Elem TEXT_P [] t0 (map (fun t => ET TEXT_SPAN t) rest) []))
+      with false by (vm_compute; reflexivity).
+    rewrite iter_skip_unfold, flat_map_map'. cbn [filter].
+    replace (tag_is TEXT_P (Elem TEXT_P [] t0 (map (fun t => ET TEXT_SPAN t) rest) []))
+      with true by (vm_compute; reflexivity).
+    f_equal. rewrite filter_flat_map. apply flat_map_nil'. intro t. reflexivity.
+Qed.
+
+Lemma ods_cell_paras_children t cs :
+  ods_cell_paras (E t cs)
+  = flat_map (fun c => if tag_is OFFICE_ANNOTATION c then []
+                       else filter (tag_is TEXT_P) (c :: iter_skip OFFICE_ANNOTATION c)) cs.
+Proof.
+  unfold ods_cell_paras, E. rewrite iter_skip_unfold, filter_flat_map.
+  apply flat_map_ext'. intro c. destruct (tag_is OFFICE_ANNOTATION c); reflexivity.
+Qed.
+
+Lemma od_paras_fcell c : ods_cell_paras (odf_r_fcell c) = map odf_r_para c.
+Proof.
+  unfold odf_r_fcell. rewrite ods_cell_paras_children, flat_map_map'.
+  rewrite (flat_map_ext' _ (fun p => [odf_r_para p])) by (intro; apply od_paras_para).
+  apply flat_map_single.
+Qed.
+
+Lemma odp_cell_fcell c : odp_cell pint skip (odf_r_fcell c) = fcell_text c.
+Proof.
+  unfold odp_cell, fcell_text. rewrite od_paras_fcell, map_map. f_equal.
+  apply map_ext. intro; apply odf_text_para.
+Qed.
+
+(* an annotation (cell comment) with arbitrary content does not reach the cell text *)
+Theorem odp_cell_comment_skipped_sec : forall aa ax acs al p,
+  odp_cell pint skip (E TABLE_CELL [Elem OFFICE_ANNOTATION aa ax acs al; odf_r_para p]) = concat p.
+Proof.
+  intros. unfold odp_cell. rewrite ods_cell_paras_children. cbn [flat_map].
+  replace (tag_is OFFICE_ANNOTATION (Elem OFFICE_ANNOTATION aa ax acs al)) with true
+    by (vm_compute; reflexivity).
+  rewrite od_paras_para. cbn [app map join]. apply odf_text_para.
 Qed.
 
 Lemma od_ROW_ftable fg :
@@ -515,7 +576,8 @@ Theorem odp_table_flat : forall g : fgrid,
 Proof.
   intros g H. unfold odp_table, odf_r_ftable. rewrite !findall_E.
   rewrite (filter_map_false (tag_is TABLE_HEADER_ROWS)) by (intro; reflexivity). cbn [flat_map app].
-  rewrite (filter_map_true (tag_is TABLE_ROW)) by (intro; reflexivity). apply od_rows_ftable, H.
+  rewrite (filter_map_true (tag_is TABLE_ROW)) by (intro; reflexivity).
+  apply od_rows_ftable_gen; [exact odp_cell_fcell | exact H].
 Qed.
 
 (* a flat grid renders as the flat table of its own paragraphs *)
@@ -564,6 +626,20 @@ Proof.
     rewrite fgrid_text_flatg, !is_nil_map, Hn1. cbn [app map]. f_equal. apply IH; assumption.
 Qed.
 End ODF.
+
+Theorem odp_cell_comment_skipped : forall pint skip aa ax acs al p,
+  mem_str TEXT_SPAN skip = false ->
+  odp_cell pint skip (E TABLE_CELL [Elem OFFICE_ANNOTATION aa ax acs al; odf_r_para p]) = concat p.
+Proof. intros. apply odp_cell_comment_skipped_sec; assumption. Qed.
+
+Example odp_cell_comment_witness :
+  odp_cell (fun _ => None) [OFFICE_ANNOTATION]
+    (E TABLE_CELL [E OFFICE_ANNOTATION [ET TEXT_P (s "note")]; odf_r_para [s "va"; s "lue"]])
+  = s "value"
+  /\ odf_cell (fun _ => None) [OFFICE_ANNOTATION]
+    (E TABLE_CELL [E OFFICE_ANNOTATION [ET TEXT_P (s "note")]; odf_r_para [s "va"; s "lue"]])
+  = s "note" ++ NL ++ s "value".
+Proof. split; vm_compute; reflexivity. Qed.
 
 (* O3 *)
 Definition pint0 : int_oracle := fun _ => None.
@@ -749,6 +825,8 @@ Print Assumptions odf_text_para.
 Print Assumptions odt_tables_flat.
 Print Assumptions odt_nested_refuted.
 Print Assumptions odp_table_flat.
+Print Assumptions odp_cell_comment_skipped.
+Print Assumptions odp_cell_comment_witness.
 Print Assumptions epub_tables_roundtrip.
 Print Assumptions epub_nested_refuted.
 Print Assumptions epub_inline_split_witness.
